@@ -421,18 +421,29 @@ def evaluate(ctx, s, recs, cout, mout, stats, use_model):
                     if md.get(key) != cd.get(key):
                         bad("tie", "solve: field %s differs" % key)
                         break
-            if p_len == 0:
-                deficient = any(x < unk_per_sys for x in mcounts)
-            else:
-                deficient = (md["deficient"] == "1") if md is not None else (tot + corr < unk_per_sys * len(mcounts) + p_len)
-            if md is not None and md.get("deficient") is not None and (md["deficient"] == "1") != deficient and p_len == 0:
-                bad("tie", "model's deficiency decision differs from its own counts")
+            # "too few equations", decided from the scenario: the counts are those of the MODEL run on the add calls of the
+            # script (never the library's counters); a system with fewer equations than error terms is deficient on every
+            # path (DD90: the iterative solver used to test the totals only), and with unknown parameters so is
+            # equations + correlation equations < error terms + unknown parameters.  The TRL path has no count test.
+            if md is None:
+                # no model driver: fall back to the library's counters (reported as a failed driver obligation elsewhere)
+                pass
+            is_trl_path = (src.get("trl") == "1")
+            deficient = (not is_trl_path) and (any(x < unk_per_sys for x in mcounts) or
+                                               (p_len > 0 and tot + corr < unk_per_sys * len(mcounts) + p_len))
+            if md is not None and md.get("deficient") is not None and (md["deficient"] == "1") != deficient:
+                bad("tie", "model's deficiency decision (%s) differs from the decision recomputed from its own counts (%s)"
+                    % (md["deficient"], deficient))
+            if p_len > 0 and not is_trl_path and any(x < unk_per_sys for x in mcounts) and \
+                    not (tot + corr < unk_per_sys * len(mcounts) + p_len):
+                stats["short_system_total_passes"] += 1
+                ctx.count(("short-system-unknown", s.ty, s.r, s.c, tuple(mcounts), p_len))
             if p_len > 0 and cd.get("trl") == "0":
                 # the count test of the iterative solver, recomputed from the library's own (white-box) counters:
                 # measurement equations + correlation equations against error terms + unknown parameters
                 c_tot, c_corr, c_unk = int(cd["tot"]), int(cd["corr"]), int(cd["unk"])
                 x_len = unk_per_sys * len(counts)
-                formula = c_tot + c_corr < x_len + c_unk
+                formula = c_tot + c_corr < x_len + c_unk or any(x < unk_per_sys for x in counts)
                 if formula != deficient:
                     bad("tie", "count decision with unknown parameters: model %s, equations %d + correlated %d vs terms %d + parameters %d"
                         % (deficient, c_tot, c_corr, x_len, c_unk))
@@ -934,6 +945,59 @@ def minimal_set(s, pool, rng):
             if all(g.rank() == nunk for g in gf):
                 return chosen
     return None
+
+
+def gen_column_deficient(ctx):
+    """DD90.  UE14 / E12 (one linear system per column) with ONE unknown parameter, where a column has fewer equations than
+    error terms while the total passes the test of the iterative solver: a through + several reflects on one port (one of
+    them the unknown) + at most one or two standards that touch the other column(s); solve after every add.  EDOM is
+    required as long as some column is short (the property: "fails with EDOM rather than inventing terms")."""
+    import random
+    rng = ctx.rng
+    quick = ctx.tier == "quick"
+    out = []
+    sid = 700000
+    for ty in ("UE14", "E12"):
+        for (r, c) in [(2, 2), (3, 2), (3, 3)]:
+            if not sc.dims_ok(ty, r, c):
+                continue
+            for rep in range(2 if quick else 8):
+                prng = random.Random(rng.getrandbits(48))
+                s = Scenario(ty, r, c, 1 + rep % 2, prng, sid)
+                sid += 1
+                s.merr = False
+                s.exact = False
+                s.group = None
+                P = s.P
+                rich = prng.randint(1, c)                  # the column / port that gets the reflects
+                poor = [p for p in range(1, c + 1) if p != rich]
+                gam = [QI(Fraction(prng.randint(-8, 8), 10), Fraction(prng.randint(-8, 8), 10)) for _ in range(4)]
+                stds = []
+                q = poor[0]
+                z, one = (0, ZERO), (1, ONE)
+                stds.append(sc.Standard("th", [rich, q] if prng.random() < 0.5 else [q, rich], [[z, one], [one, z]], "T"))
+                for nm, k in (("short", 2), ("open", 1), ("match", 0)):
+                    stds.append(sc.Standard("r1", [rich], [[(k, s.slots[k])]], "%s@%d" % (nm, rich)))
+                for i, g in enumerate(gam[:3]):
+                    k = s.new_slot(g)
+                    stds.append(sc.Standard("r1", [rich], [[(k, g)]], "g%d@%d" % (i, rich)))
+                ust, u = unknown_reflect(s, rich, gam[3], QI(gam[3].re + Fraction(1, 50), gam[3].im - Fraction(1, 50)), "U@%d" % rich)
+                stds.append(ust)
+                for p in poor:
+                    stds.append(sc.Standard("r1", [p], [[(2, QI(-1))]], "short@%d" % p))
+                term = {i: QI(Fraction(1, 10), Fraction(-1, 5)) for i in range(P)}
+                for st in stds:
+                    st.unknown = True           # outside the rank oracle (unknown parameter present)
+                    st.term = term
+                    st.abbrev_rows = st.abbrev_cols = False
+                order = list(range(len(stds)))
+                if rep % 2:
+                    prng.shuffle(order)
+                for i in order:
+                    s.ops.append(("add", stds[i]))
+                    s.ops.append(("solve",))
+                out.append(s)
+    return out
 
 
 def gen_minimal_scaled(ctx):
@@ -1524,7 +1588,8 @@ def run(ctx):
     vfiles = ["SolveCount/CountModel.v", "SolveCount/CountProofs.v", "SolveCount/DeterminingGj.v",
               "SolveCount/DeterminingProofs.v", "SolveCount/DeterminingCount.v", "SolveCount/DeterminingExamples.v",
               "SolveCount/DeterminingLinkModel.v", "SolveCount/DeterminingLinkProofs.v", "SolveCount/DeterminingLinkJoin.v",
-              "SolveCount/DeterminingLinkExamples.v",
+              "SolveCount/DeterminingLinkExamples.v", "SolveCount/DeterminingDD90.v", "SolveCount/DeterminingSol.v",
+              "SolveCount/DeterminingE12.v",
               "Properties_C20.v"]
     have_coq = all(os.path.exists(os.path.join(vplib.COQDIR, v)) for v in vfiles)
     coq_ok = False
@@ -1559,9 +1624,9 @@ def run(ctx):
     stats.update({k: 0 for k in ("numeric_points", "numeric_insufficient", "numeric_singular", "numeric_ok",
                                  "numeric_singular_but_library_solved", "numeric_terms_exact", "numeric_terms_vs_library")})
     stats["numeric_worst_term_error"] = 0.0
-    stats.update({"square_scaled_required": 0, "vector_resolve_terms": 0})
+    stats.update({"square_scaled_required": 0, "vector_resolve_terms": 0, "short_system_total_passes": 0})
     scen = gen_scenarios(ctx) + gen_special(ctx) + gen_trl(ctx) + gen_correlated(ctx) + gen_writeback(ctx, exe)
-    scen += gen_minimal_scaled(ctx) + gen_resolve_vector(ctx)
+    scen += gen_minimal_scaled(ctx) + gen_resolve_vector(ctx) + gen_column_deficient(ctx)
     if drv is not None:
         scen += gen_argcheck(ctx, drv)
     ctx.log("%d scenarios" % len(scen))
@@ -1713,6 +1778,8 @@ def run(ctx):
                    stats["square_scaled_required"] >= 8 and stats["vector_resolve_terms"] >= 8,
                    "%d required successes on square systems with readings scaled by 1e-7..1e7, %d term vectors of re-solves "
                    "with table standards compared with the true terms" % (stats["square_scaled_required"], stats["vector_resolve_terms"]))
+    ctx.obligation("tie:coverage (unknown parameter, a column short of equations while the total count passes: EDOM required, DD90)",
+                   stats["short_system_total_passes"] >= 6, "%d such solves" % stats["short_system_total_passes"])
     searched = "%d solve calls in %d histories against the library, the model and the exact-rank oracle" % (stats["solves"], len(scen))
     if not ctx.violations:
         for name, ok, detail in list(ctx.obligations):
